@@ -49,6 +49,39 @@ standard errors non-negative (also for a negative stored variance), CI        C0
 permuting the models permutes every output (variances, means, SEM, CI, all    C06/equivariance (orc_equivariance): EVERY
   p-values of all three test types; bootstrap samples with partial ties)        permutation of 2..4 models
 
+every output depends on the inputs of its own Result / call only: same call      C06/call-sequence (orc_call_sequence), class
+  twice bit-identical, held outputs unchanged by later calls, no input is           call-sequence of C06/fixed-t (eval_fixed on another
+  modified (also read-only arrays), no state shared between Results / calls of      data set of the same shape before, same call twice)
+  the same shape
+a new interpreter with another PYTHONHASHSEED gives bit-identical outputs         C06/hashseed (orc_hashseed)
+
+Sweeps (round 4; `_sweeps`, optional keys of the case dicts, see `_vary` / `_layout` / `_fixed_inputs`).  The expected values are
+always computed from the float64 values of what the library is given, so every sweep is either the same clause on other inputs or
+a metamorphic relation that the clause implies (dtype promotion: integer / float32 typed input = same values as float64;
+positive scaling: evaluations and ceiling x u, covariance x u^2 => variances x u^2, means / SEM / CI x u, p-values unchanged):
+  units        evaluations x 1e-26 .. 1e12 (covariance x unit^2); eval_fixed: data and model RDMs scaled independently 1e-26 .. 1e12
+  typed data   evaluations int64 / int16 / uint8 / float32; covariance int64 / int32 / int16 / uint8 / float32; RDM vectors of data
+               and models int64 / int16 / uint8 / float32
+  containers   models as tuple / single Model; noise ceiling as list / tuple; scalar variance as np.float64; n_rdm / n_pattern / dof
+               as np.int64 / np.int32 / float / np.float64; Fortran-ordered, strided, negatively strided and read-only arrays
+  repeats      all models with the same name; two identical subjects; an extra str rdm descriptor with repeated values
+  sizes        single-element trailing dimensions ((1,), (1,1), (3,1), (1,4), (1,1,1)), 1 and 2 samples, 1..4 subjects for rank-sum,
+               3 conditions and 21..30 subjects x 6..8 models for eval_fixed, 6..13 models for the contrasts
+  competitors  dual bootstrap: zero stacks, single-factor = two-factor exactly, exactly additive factors, single-factor variance
+               within 1e-9 .. 3e-6 (relative) above / below the two-factor one; eval_fixed: models that differ by 1e-2 / 1e-4 only,
+               noise levels 1e-3 / 1e-5
+  sequences / environment   see C06/call-sequence and C06/hashseed above
+
+Pending triage (fail on the unchanged tree; registrations behind `if False:  # pending triage: <class>` in `_sweeps`)
+  near-identical-models(diff-variance<eps)       eval_fixed, two models whose RDMs differ by 1e-7: test_pairwise 0.22 instead of the
+                                                 paired-t p = 0.024 (variance clamp at machine eps; at 1e-9 diff_var cancels to 0.0)
+  tiny-units(variance<eps)                       evaluations in units of 1e-9 .. 1e-12: t-test p-values are not those of the reported
+                                                 variances (clamp max(var, eps)), whereas get_sem / get_ci scale correctly
+  bootstrap-ceiling-per-sample,evaluations>2-D   test_noise('bootstrap') / test_all('bootstrap') raise ValueError for (N, M, k..)
+                                                 evaluations with a (2, N) or (2, N, k..) ceiling (= every bootstrap_crossval /
+                                                 eval_dual_bootstrap result)
+  uint8-covariance-contrast-overflow             uint8 covariance whose ceiling contrast exceeds 255: wrap-around in the input dtype
+
 Known / found on the unchanged tree (own input_class each, see C06_findings.md)
   bootstrap-nc-2xN:nc_tests, bootstrap-nc-2xN:all_tests   ValueError for a per-sample (2, N) noise ceiling, N != 2
   bootstrap-pair-all-tied                                  0/0 -> NaN p-value
@@ -64,8 +97,10 @@ NOT covered by this tier
 * correctness of scipy.stats distributions (assumed, as in DESIGN).
 * rank-sum tests with NaN folds (scipy propagates NaN) and bootstrap p-values with NaN samples (NaN samples are counted
   in N): the statement fixes no formula for them; see observations in C06_findings.md.
-* shape of the bootstrap zero / ceiling p-values for > 2-D evaluations (one value per trailing entry, not per model).
-* variance below machine eps (clamp max(var, eps) in the t-tests): cases are built with variances >> eps.
+* shape of the bootstrap zero / ceiling p-values for > 2-D evaluations (one value per trailing entry, not per model); with a
+  per-sample ceiling they raise (pending class above).
+* variance below machine eps (clamp max(var, eps) in the t-tests): the normal classes are built with variances >> eps; the cases
+  below eps are the pending classes above.
 * cv_method 'fixed' / 'crossvalidation' means for arrays that are not 3-D with a single leading sample.
 * eval_fixed with a single RDM (no variance, tests raise) and with identical models (difference variance 0: the classical
   t statistic is undefined, the repo clamps the variance at eps).
@@ -574,6 +609,9 @@ def _dual_inputs(case):
     elif mode == 'additive':    # the two single-factor estimates add up to the two-factor one exactly (binary fractions)
         s1 = case['s1']
         V = np.array([base, s1 * base, base - s1 * base])
+    elif mode == 'nearcap':     # close competitor: the corrected rdm-bootstrap variance is (1 + s1) x the two-factor variance
+        cr = 1.0 if case.get('n_rdm') is None or case.get('n_pattern') is None else case['n_rdm'] / (case['n_rdm'] - 1)
+        V = np.array([base, (1 + case['s1']) / cr * base, case['s2'] * base])
     else:   # three unrelated covariance estimates (noisy bootstrap): single factors above and below the two-factor one
         V = np.array([base, _psd(rs, n, case.get('s1', 1.0)), _psd(rs, n, case.get('s2', 1.0))])
     vdt = case.get('vdtype')
@@ -1238,22 +1276,35 @@ def orc_hashseed(case):
     here = _probe(case)
     src = os.path.dirname(os.path.dirname(os.path.abspath(rsatoolbox.__file__)))
     root = os.path.dirname(os.path.dirname(os.path.abspath(__file__)))
-    env = dict(os.environ, PYTHONHASHSEED=str(case['hashseed']), PYTHONPATH=src + os.pathsep + root, MPLBACKEND='Agg',
-               PYTHONDONTWRITEBYTECODE='1')
     code = ('import json, sys; from contracts.C06_c import _probe_quiet; '
             'print("PROBE" + json.dumps(_probe_quiet(json.loads(sys.argv[1]))))')
-    p = subprocess.run([sys.executable, '-c', code, json.dumps(case)], env=env, capture_output=True, text=True, timeout=600)
-    lines = [ln for ln in p.stdout.splitlines() if ln.startswith('PROBE')]
-    if p.returncode != 0 or len(lines) != 1:
-        return f'interpreter with PYTHONHASHSEED={case["hashseed"]} failed (exit {p.returncode}): {p.stderr.strip()[-400:]}'
-    there = json.loads(lines[0][5:])
-    if sorted(there) != sorted(here):
-        return f'other outputs under PYTHONHASHSEED={case["hashseed"]}: {sorted(set(there) ^ set(here))}'
-    for nm in sorted(here):
-        if there[nm] != here[nm]:
-            return (f'{nm} differs in a new interpreter with PYTHONHASHSEED={case["hashseed"]}: '
-                    f'{[float.fromhex(x) for x in there[nm]][:6]} vs {[float.fromhex(x) for x in here[nm]][:6]} here')
-    return None
+    procs = []
+    for hs in case['hashseeds']:    # the interpreters run side by side
+        env = dict(os.environ, PYTHONHASHSEED=str(hs), PYTHONPATH=src + os.pathsep + root, MPLBACKEND='Agg', PYTHONDONTWRITEBYTECODE='1')
+        procs.append((hs, subprocess.Popen([sys.executable, '-c', code, json.dumps(case)], env=env, stdout=subprocess.PIPE,
+                                           stderr=subprocess.PIPE, text=True)))
+    problems = []
+    for hs, p in procs:
+        try:
+            out, err = p.communicate(timeout=900)
+        except subprocess.TimeoutExpired:
+            p.kill()
+            problems.append(f'interpreter with PYTHONHASHSEED={hs} did not finish')
+            continue
+        lines = [ln for ln in out.splitlines() if ln.startswith('PROBE')]
+        if p.returncode != 0 or len(lines) != 1:
+            problems.append(f'interpreter with PYTHONHASHSEED={hs} failed (exit {p.returncode}): {err.strip()[-400:]}')
+            continue
+        there = json.loads(lines[0][5:])
+        if sorted(there) != sorted(here):
+            problems.append(f'other outputs under PYTHONHASHSEED={hs}: {sorted(set(there) ^ set(here))}')
+            continue
+        for nm in sorted(here):
+            if there[nm] != here[nm]:
+                problems.append(f'{nm} differs in a new interpreter with PYTHONHASHSEED={hs}: '
+                                f'{[float.fromhex(x) for x in there[nm]][:6]} vs {[float.fromhex(x) for x in here[nm]][:6]} here')
+                break
+    return '; '.join(problems) if problems else None
 
 
 # ----------------------------------------------------------------------------------------------------------------------
@@ -1398,7 +1449,8 @@ def _sweeps(thorough):
     dual_ns = ((None, None), (2, 2), (3, 40), (12, 20), (6, None))
     trivial = [('zero', 0.0, 0.0), ('scaled', 1.0, 1.0), ('scaled', 1.0, 0.0), ('scaled', 0.0, 1.0), ('scaled', 0.0, 0.0),
                ('additive', 0.5, None), ('additive', 0.25, None), ('additive', 1.0, None), ('scaled', 0.999999, 0.999999),
-               ('scaled', 1.000001, 0.5)]
+               ('scaled', 1.000001, 0.5), ('nearcap', 3e-6, 0.0), ('nearcap', 1e-9, 0.0), ('nearcap', -3e-6, 0.0), ('nearcap', 3e-6, 1e-3),
+               ('scaled', 0.5, 0.5000025), ('scaled', 0.6, 0.4000003)]
     some = [('scaled', 0.45, 0.4), ('scaled', 1.1, 0.2), ('mixed', 0.5, 0.3), ('independent', 0.6, 0.1)]
     k = 0
     for seed in range(seeds):
@@ -1491,6 +1543,13 @@ def _sweeps(thorough):
                 i += 1
                 add('C06/p-range', orc_p_range, dict(base(i, nd=3, M=M, ncrows=True), tests=['ranksum'], tail=[S], nclevel=0.32, ncshape='1d'),
                     'ranksum,few-subjects', 'ranksum_pair_test')
+        if False:  # pending triage: bootstrap-ceiling-per-sample,evaluations>2-D
+            # what bootstrap_crossval / eval_dual_bootstrap return: (N, M, k..) evaluations with a (2, N, k..) ceiling, and (2, N) ceilings
+            for nd in (3, 4):
+                for ncshape in ('2d', '3d'):
+                    i += 1
+                    add('C06/p-range', orc_p_range, dict(base(i, nd=nd, M=2, ncrows=True), tests=['bootstrap'], ncshape=ncshape),
+                        'bootstrap-ceiling-per-sample,evaluations>2-D', 'nc_tests')
 
     # ---- bootstrap formulas --------------------------------------------------------------------------------------------------------------
     i = 0
@@ -1576,14 +1635,17 @@ def _sweeps(thorough):
                         tests = ['t-test', 'bootstrap'] + (['ranksum'] if nd == 3 else [])
                         if nd == 3:
                             c.update(tail=[(6, 8)[i % 2]], nclevel=0.32)
-                        add('C06/call-sequence', orc_call_sequence, dict(c, tests=tests, ncshape='1d'), 'read-only-inputs' if lay else 'plain',
+                        add('C06/call-sequence', orc_call_sequence, dict(c, tests=tests, ncshape=('1d', '2d')[i % 2] if nd == 2 else '1d'), 'read-only-inputs' if lay else 'plain',
                             'Result')
     return sw
 
 
 def _run_sweeps(bd, sw):
-    for orc, case, ic, fn in sw.get(bd.name, ()):
+    todo = sw.get(bd.name, ())
+    for orc, case, ic, fn in todo:
         bd.check(orc, case, ic, function=fn)
+    if todo and bd.name not in ('C06/call-sequence',):
+        bd.domain += SWEEP_DOC + ' (%d sweep cases in %d input classes)' % (len(todo), len({t[2] for t in todo}))
 
 
 def tier_c(run, thorough):
@@ -1902,19 +1964,19 @@ def tier_c(run, thorough):
     bds.append(bd)
 
     # ---- another interpreter, another hash seed -----------------------------------------------------------------------------------
-    hseeds = (1, 4242, 4294967295) if thorough else (1,)
+    hseeds = (1, 2, 3, 4242, 4294967295) if thorough else (1, 2)
     bd = Bounded(run, 'C06/hashseed', 'C06/Result/oracle/same-outputs-under-another-hash-seed',
-                 'a fresh interpreter with PYTHONHASHSEED in %s: all outputs (variances, means, SEM, CI, p-values of the three test types) of 3 '
-                 'seeded Results and of eval_fixed (cosine, spearman) are bit-identical to those of this process' % (list(hseeds),),
-                 function='Result')
-    for hs in hseeds:
-        subs = [dict(seed=19000 + hs % 1000 + j, M=(3, 2, 4)[j], N=(12, 9, 20)[j], tail=[[6], [], [3, 2]][j], cov=('matrix', 'vector', 'stack')[j],
+                 'fresh interpreters with PYTHONHASHSEED in %s: all outputs (variances, means, SEM, CI, p-values of the three test types) of '
+                 '3 seeded Results and of eval_fixed (cosine, spearman) are bit-identical to those of this process; %d set(s) of seeded inputs'
+                 % (list(hseeds), 2 if thorough else 1), function='Result')
+    for rep in range(2 if thorough else 1):
+        subs = [dict(seed=19000 + 10 * rep + j, M=(3, 2, 4)[j], N=(12, 9, 20)[j], tail=[[6], [], [3, 2]][j], cov=('matrix', 'vector', 'stack')[j],
                      ncrows=bool(j % 2), ncshape='1d', dof=(5, 2, 30)[j], n_rdm=(6, None, 9)[j], n_pattern=(None, 7, 6)[j], ties=bool(j % 2),
                      nclevel=0.32 if j == 0 else 0.6, tests=(['t-test', 'bootstrap', 'ranksum'] if j == 0 else ['t-test', 'bootstrap']))
                 for j in range(3)]
-        fixed = [dict(seed=19500 + hs % 1000 + j, n_rdm=(5, 4)[j], n_cond=5, M=(3, 2)[j], method=('cosine', 'spearman')[j], noise=0.5)
+        fixed = [dict(seed=19500 + 10 * rep + j, n_rdm=(5, 4)[j], n_cond=5, M=(3, 2)[j], method=('cosine', 'spearman')[j], noise=0.5)
                  for j in range(2)]
-        bd.check(orc_hashseed, dict(hashseed=hs, cases=subs, fixed=fixed), 'new-interpreter', function='Result')
+        bd.check(orc_hashseed, dict(hashseeds=list(hseeds), cases=subs, fixed=fixed), 'new-interpreter', function='Result')
     bd.done()
     bds.append(bd)
     return bds
